@@ -6,7 +6,7 @@ C10 — property theorems.  Helper lemmas live in NV/C10/Lemmas*.lean; this file
     the model of lib/efuns/call_out.c.
   * `wheelInv_always`, `sweep_catches_up`, ... : the invariants behind it, clause by clause.
 -/
-import NV.C10.LemmasSimRun
+import NV.C10.LemmasUsageRun
 
 namespace NV.C10
 
@@ -101,6 +101,14 @@ theorem runCmds_sim (sc : Scripts) {w : World} (hr : Rest w) (hs : Sim false w) 
   | nil => exact hs
   | cons c cs ih => exact ih (stepCmd_rest sc hr c) (stepCmd_sim sc hr hs c)
 
+/-- the bookkeeping invariant along a command list -/
+theorem runCmds_u (sc : Scripts) {w : World} (hr : Rest w) (hs : Sim false w) (hu : UInv 0 w) (cs : List Cmd) :
+    UInv 0 (runCmds sc w cs) := by
+  unfold runCmds
+  induction cs generalizing w with
+  | nil => exact hu
+  | cons c cs ih => exact ih (stepCmd_rest sc hr c) (stepCmd_sim sc hr hs c) (stepCmd_u sc hr hs hu c)
+
 /-- **C10, top theorem.**  For every callback oracle `sc` (what each call_out callback does: schedule, remove,
     find, destruct, raise an error, ...) and every list of top-level commands `cmds` (operations, clock advances of
     any size, sweeps at any spacing incl. backlog), the history of observable events produced by the model of
@@ -110,11 +118,28 @@ theorem runCmds_sim (sc : Scripts) {w : World} (hr : Rest w) (hs : Sim false w) 
     call_out never fires; call_outs of destructed objects are dropped; an error in a callback loses/repeats
     nothing; handles are never reused; `call_out_info()` lists exactly the pending call_outs of live objects;
     this_player() in a callback is the saved command_giver (0 if destructed); `reload_object` drops the object's
-    call_outs.  (See NV/C10/PropsNeg.lean for histories the oracle rejects, clause by clause.) -/
+    call_outs; print_call_out_usage reports the number of pending call_outs and a `num_call` that is a whole number of
+    chunks, covers the structures in use and never exceeds what the largest number ever in use required (no leak).  (See NV/C10/PropsNeg.lean for histories the oracle rejects, clause by clause.) -/
 theorem model_satisfies_spec (sc : Scripts) (cmds : List Cmd) :
     judgeEv (events (runCmds sc World.init cmds)) = [] := by
-  rw [judgeEv_events, (runCmds_sim sc init_rest init_sim cmds).bad]
+  unfold judgeEv
+  rw [judgeCore_events, (runCmds_sim sc init_rest init_sim cmds).bad, judgeUsage_events,
+    (runCmds_u sc init_rest init_sim init_u cmds).ubad]
   rfl
+
+/-- **bookkeeping (free list / num_call / print_call_out_usage)**: after every history `num_call` is a whole number
+    of chunks and covers every structure in use, none is held by a finished callback (`busy = 0`), and the wheel holds
+    no more entries than the oracle lists as pending (the clause-level statement behind the `usage-*` verdicts; that
+    `num_call` stays below `hwm + CHUNK_SIZE` is part of `model_satisfies_spec`) -/
+theorem usage_exact (sc : Scripts) (cmds : List Cmd) :
+    (runCmds sc World.init cmds).numCall % Gen.C10.chunkSize = 0 ∧
+      wheelSize (runCmds sc World.init cmds) + (runCmds sc World.init cmds).busy ≤ (runCmds sc World.init cmds).numCall ∧
+      (runCmds sc World.init cmds).busy = 0 ∧
+      wheelSize (runCmds sc World.init cmds) ≤ (jstate (runCmds sc World.init cmds).out).pend.length := by
+  have hu := runCmds_u sc init_rest init_sim init_u cmds
+  have hr := runCmds_rest sc init_rest cmds
+  have hs := runCmds_sim sc init_rest init_sim cmds
+  exact ⟨hu.mod, hu.inUse, hu.busy, wheelSize_le_pend hr.1 hs⟩
 
 /-- **clause 2c**: the wheel invariant holds after every history, and between commands nothing pending is due -/
 theorem wheelInv_always (sc : Scripts) (cmds : List Cmd) :
@@ -191,6 +216,43 @@ theorem handles_fit_int (sc : Scripts) (cmds : List Cmd) (hb : (runCmds sc World
   generalize (runCmds sc World.init cmds).unique = u at *
   wheel_omega
 
+/-! ### handles in explicit width (C `int`) -/
+
+/-- `tm += CALLOUT_CYCLE_SIZE * ++unique` evaluated in a C `int` (`trunc32` = what a two's complement machine
+    leaves; in C itself the overflow is undefined behaviour) -/
+def handleC (tm unique : Nat) : Int := Gen.C10.trunc32 (Gen.C10.handleExpr tm unique)
+
+/-- **full statement under the stated bound**: for every slot and every serial below `2^31 / N - 1` the `int`
+    computation is exactly the model's handle `tm + N * (unique + 1)` (positive, never 0, slot recoverable) -/
+theorem handleC_exact (tm u : Nat) (htm : tm < N) (hb : u + 1 < 2 ^ 31 / N) :
+    handleC tm u = ((tm + N * (u + 1) : Nat) : Int) := by
+  have h := tie_handleExpr tm u
+  unfold handleC Gen.C10.trunc32
+  have h0 : 0 ≤ Gen.C10.handleExpr tm u := by
+    unfold Gen.C10.handleExpr; wheel_omega
+  have h1 : Gen.C10.handleExpr tm u = ((tm + N * (u + 1) : Nat) : Int) := by omega
+  rw [h1]
+  wheel_omega
+
+/-- the statement without the bound, for all serials -/
+def C10_handles_Full : Prop := ∀ tm u : Nat, tm < N → handleC tm u = ((tm + N * (u + 1) : Nat) : Int)
+
+/-- **witness above the bound** (Lean-checked): the first serial whose handle leaves `int` comes out negative ... -/
+theorem handleC_overflow_witness : handleC 0 (2 ^ 31 / N - 1) < 0 := by decide
+
+/-- ... so the full statement is false; `handleC_exact` is the `_partial` version with the explicit bound
+    (2^26 - 1 call_outs for N = 32).  Not replayed on the driver: reaching it needs 2^26 call_outs or a hook that
+    sets `unique` (see notes/C10.md). -/
+theorem C10_handles_Full_false : ¬ C10_handles_Full := by
+  intro h
+  have h1 := h 0 (2 ^ 31 / N - 1) (by decide)
+  have h2 := handleC_overflow_witness
+  rw [h1] at h2
+  omega
+
+/-- and `2^32 / N` serials later a handle repeats -/
+theorem handleC_collision_witness : handleC 5 0 = handleC 5 (2 ^ 32 / N) := by decide
+
 /-- the efuns return `(int) time_left (...)`; the model applies the same conversion (`efunResult`, generated) and the
     oracle expects a C int (`toCInt`).  **Explicit side condition** under which the conversion is the identity, i.e.
     the answer is the true time left: the entry's second lies within 2^31 seconds of `current_time`
@@ -223,6 +285,10 @@ example : (events (runCmds exScripts World.init exCmds)).length = 19 := by decid
 
 example : (events (runCmds exScripts World.init exCmds)).filter (fun e => match e with | .fire .. => true | _ => false)
     = [.fire 3 1 0 "a" (some 3), .fire 43 1 1 "b" (some 3)] := by decide
+
+/-- `usage_exact` on the example: one chunk allocated, one call_out still pending -/
+example : (runCmds exScripts World.init (exCmds.take 9)).numCall = 20 ∧
+    wheelSize (runCmds exScripts World.init (exCmds.take 9)) = 1 := by decide
 
 /-- the side condition of `handles_fit_int` is satisfiable on the non-trivial example history -/
 example : (runCmds exScripts World.init exCmds).unique < 2 ^ 31 / N := by decide
